@@ -26,10 +26,11 @@ func vMACFor(key encryptedKey, passwd string) (mac string) {
 	}
 	n := key.Crypto.KDFParams.DKLen
 	c := key.Crypto.KDFParams.C
-	if n < 32 || n > 1<<20 || c > 1<<12 {
+	if n < 32 || c > 1<<12 {
 		return raw
 	}
-	dk := pbkdf2.Key([]byte(passwd), salt, c, n, pbkdf2PRF)
+	// the MAC key is bytes 16..32 of the PBKDF2 output, which do not depend on dklen (>= 32)
+	dk := pbkdf2.Key([]byte(passwd), salt, c, 32, pbkdf2PRF)
 	m, err := newSHA3Keccak256(dk[macKeyOffset:macKeyOffset+macKeySize], ct)
 	if err != nil {
 		return raw
